@@ -650,8 +650,11 @@ func run(c *core.Ctx) {
 	c.PanicOracle = "C09.P2.panic"
 	c.SpinOracle = "C10.SPIN.busy-wait"
 	c.PanicClassify = func(text string) string {
-		if strings.Contains(text, "WaitWithReleased") || strings.Contains(text, ").Access") {
-			return "C10.P.panic"
+		// a panic inside one of the consumer helpers (C10) rather than in AddRef/Release/SetContext (C09)
+		for _, f := range []string{"WaitWithReleased", ").Access", ").Wait(", ").Resolve(", ").ResolveWithReleased(", ").AddRefPromise(", "WaitRefCountContainer", "refcountx.(*world).runConsumer", "refcountx.(*world).runAccess", "actor:consumer"} {
+			if strings.Contains(text, f) {
+				return "C10.P.panic"
+			}
 		}
 		return ""
 	}
@@ -688,6 +691,46 @@ func run(c *core.Ctx) {
 	}
 	if n := c.IntRange(0, 3); n > 0 {
 		tasks = append(tasks, c.Actor("invalidator", func() { w.invalidator(n) }))
+	}
+	if w.target != nil && c.S.PlanP(150) {
+		// a bystander waits on the target container with a validator that pins the
+		// value it is shown (AddRef + Release from inside the validator): validators
+		// run without the container's lock, so this cannot deadlock
+		tasks = append(tasks, c.Actor("validator-pinner", func() {
+			w.maybeGate()
+			ctx, cancel := context.WithCancel(context.Background())
+			defer cancel()
+			g := make(chan struct{})
+			w.gates = append(w.gates, g)
+			c.Actor("pinner-interrupt", func() {
+				simrt.Recv1("refcountx.pinner-gate", g)
+				cancel()
+			})
+			c.S.Count("probe:validator-pins-value")
+			_, _ = w.target.WaitValueWithValidator(ctx, func(v *val) (bool, error) {
+				var ref *refcount.Ref[*val]
+				w.api("AddRef (from a target validator)", func() { ref = w.rc.AddRef(nil) })
+				if ref != nil {
+					w.api("Ref.Release (from a target validator)", func() { ref.Release() })
+				}
+				return v != nil, nil
+			}, nil)
+		}))
+	}
+	if w.target != nil && c.S.PlanP(250) {
+		// a bystander inspects the target container through an identity SwapValue whose
+		// callback takes a few steps: the container's lock is busy while the RefCount works
+		n := c.IntRange(1, 3)
+		tasks = append(tasks, c.Actor("target-inspector", func() {
+			for i := 0; i < n && !c.Failed(); i++ {
+				w.maybeGate()
+				c.S.Count("probe:target-inspected")
+				w.target.SwapValue(func(v *val) *val {
+					core.YieldN("refcountx.target-inspect", 3)
+					return v
+				})
+			}
+		}))
 	}
 	nc := c.IntRange(0, 2)
 	for i := 0; i < nc; i++ {
